@@ -11,6 +11,11 @@
    Events:  Arrive g r   the `async for` loop of _run received request r for group g
             Finish g ok  the done-callback _handle_task_completion ran for group g's task
                          (ok = the task returned; false = it raised an Exception)
+            Restart      `_run` is entered again (Actor restart after an unhandled exception in
+                         the receive loop, or stop() followed by start()).  The distribution tasks
+                         are plain asyncio tasks that the service does not own: they survive, their
+                         done-callbacks keep running, and both dictionaries are instance state that
+                         `_run` does not touch -- so a restart changes nothing.
    Output:  Start g r    _process_request(g, r): create_task(distribute_power(r))
 
    Definitions only (no lemmas). *)
@@ -24,7 +29,7 @@ Record dstate := mkD {
 Definition upd (f : Z -> option Z) (g : Z) (v : option Z) : Z -> option Z :=
   fun x => if Z.eqb x g then v else f x.
 
-Inductive devent := Arrive (g r : Z) | Finish (g : Z) (ok : bool).
+Inductive devent := Arrive (g r : Z) | Finish (g : Z) (ok : bool) | Restart.
 Inductive dout := Start (g r : Z).
 
 Definition d_init : dstate := mkD (fun _ => None) (fun _ => None).
@@ -51,13 +56,14 @@ Definition dstep (st : dstate) (e : devent) : dstate * list dout :=
           | None => (st, [])
           end
       end
+  | Restart => (st, [])
   end.
 
 (* labels of the flattened trace: every event followed by the outputs of its step *)
-Inductive dlabel := LA (g r : Z) | LF (g : Z) (ok : bool) | LS (g r : Z).
+Inductive dlabel := LA (g r : Z) | LF (g : Z) (ok : bool) | LS (g r : Z) | LR.
 
 Definition lbl_of_event (e : devent) : dlabel :=
-  match e with Arrive g r => LA g r | Finish g ok => LF g ok end.
+  match e with Arrive g r => LA g r | Finish g ok => LF g ok | Restart => LR end.
 Definition lbl_of_out (o : dout) : dlabel := match o with Start g r => LS g r end.
 
 Fixpoint dtrace (st : dstate) (w : list devent) : list dlabel :=
@@ -101,6 +107,7 @@ Definition allowed (st : dstate) (e : devent) : bool :=
   match e with
   | Arrive _ _ => true
   | Finish g _ => match inflight st g with Some _ => true | None => false end
+  | Restart => true
   end.
 
 Fixpoint dreplay (st : dstate) (obs : list (devent * list dout)) : option dstate :=
